@@ -1,10 +1,114 @@
 import Driver.Loop
+import Midgard.Model.SinexFile
+import Midgard.Generated.SinexBlocks
+import Midgard.Spec.Sinex202
 
-/-! Driver for C14: placeholder until the model is written. -/
+/-! Driver for C14 (SINEX).
+
+    c14 base <i,j,k…|all> <hexfile>     base-class parser declaring the listed `baseBlocks` (in that order)
+    c14 site|disc|events|tro <hexfile>
+    c14 lines <table> <blockIdx> <total> <hexline>…   `parse_lines` on single lines
+    c14 epoch <hex> / c14 cell <conv> <hex>           one converter
+
+Answers are JSON (text hex-encoded, numbers as exact `num/den` strings). `RAISES` = the model says
+the real code raises. -/
 namespace Driver.C14
+open Midgard.Proto Midgard.Text Midgard.Sinex Midgard.Generated.Sinex
+
+def hx (s : Str) : String := "\"" ++ encodeHex (asString s) ++ "\""
+def hxs (s : String) : String := "\"" ++ encodeHex s ++ "\""
+
+def showCell : Cell → String
+  | .str s => "{\"s\":" ++ hx s ++ "}"
+  | .int i => "{\"i\":\"" ++ toString i ++ "\"}"
+  | .flt (some q) => "{\"f\":\"" ++ showRat q ++ "\"}"
+  | .flt Option.none => "{\"f\":\"nan\"}"
+  | .none => "null"
+  | .dt o s => "{\"d\":[" ++ toString o ++ "," ++ toString s ++ "]}"
+  | .tup l => "{\"t\":[" ++ ",".intercalate (l.map hx) ++ "]}"
+
+partial def showVal : Val → String
+  | .cell c => showCell c
+  | .col cs => "[" ++ ",".intercalate (cs.map showCell) ++ "]"
+  | .mat m => "{\"m\":[" ++ ",".intercalate (m.map fun r => "[" ++ ",".intercalate (r.map fun q => "\"" ++ showRat q ++ "\"") ++ "]") ++ "]}"
+  | .list vs => "[" ++ ",".intercalate (vs.map showVal) ++ "]"
+  | .dict kvs => "{\"o\":[" ++ ",".intercalate (kvs.map fun (k, v) => "[" ++ hxs k ++ "," ++ showVal v ++ "]") ++ "]}"
+
+def showResult (hdr : Row) (data : Val) : String :=
+  "{\"meta\":" ++ showVal (metaVal hdr) ++ ",\"data\":" ++ showVal data ++ "}"
+
+def decodeText (h : String) : Option Str := (decodeHex? h).map ofString
+
+def snxTag : Str := "%=SNX".toList
+
+def pickBlocks (sel : String) : Option (List BlockDef) :=
+  if sel = "all" then some baseBlocks
+  else do
+    let idx ← parseList? (fun s => s.toNat?) sel
+    idx.mapM fun i => baseBlocks[i]?
+
+def sortTop (d : List (String × Val)) : List (String × Val) :=
+  d.mergeSort fun a b => !(b.1 < a.1)
+
+def parseFileCmd (kind : String) (blocks : List BlockDef) (header : List FieldDef) (text : Str) : String :=
+  match readRaw snxTag header (fun _ => 81) blocks text with
+  | Option.none => "RAISES"
+  | some p =>
+    let data : Option Val :=
+      match kind with
+      | "base" => (assembleBase blocks p.raws).map .dict
+      | "site" => assembleSite blocks p.raws
+      | "disc" => assembleDisc blocks p.raws
+      | "events" => assembleDisc blocks p.raws
+      | "tro" => (assembleTro blocks p.raws).map fun d => .dict (sortTop d)
+      | _ => Option.none
+    match data with
+    | Option.none => "RAISES"
+    | some v => showResult p.hdr v
+
+def tableOf : String → Option (List BlockDef)
+  | "base" => some baseBlocks | "site" => some siteBlocks | "disc" => some discBlocks
+  | "events" => some eventsBlocks | "tro" => some troBlocks | "tms" => some tmsBlocks
+  | _ => Option.none
+
+def convOf : String → Option Conv
+  | "epoch" => some .epoch | "exponent" => some .exponent | "dms2deg" => some .dms2deg
+  | "yyyydddsssss" => some .yyyydddsssss | "tuple" => some .tuple | _ => Option.none
+
+def showKind : Midgard.Spec.Sinex.Kind → String
+  | .text => "text" | .int => "int" | .flt => "flt" | .epoch => "epoch" | .exp => "exp"
+  | .dms => "dms" | .tup => "tup" | .epoch4 => "epoch4"
+
+def showSFields (fs : List Midgard.Spec.Sinex.SField) : String :=
+  "[" ++ ",".intercalate (fs.map fun f =>
+    "[\"" ++ f.name ++ "\"," ++ toString f.start ++ "," ++ toString f.width ++ ",\"" ++ showKind f.kind ++ "\"]") ++ "]"
+
+def showSBlocks (bs : List Midgard.Spec.Sinex.SBlock) : String :=
+  "[" ++ ",".intercalate (bs.map fun b => "[\"" ++ b.marker ++ "\"," ++ showSFields b.fields ++ "]") ++ "]"
+
+def specJson : String :=
+  "{\"header\":" ++ showSFields Midgard.Spec.Sinex.header ++ ",\"official\":" ++ showSBlocks Midgard.Spec.Sinex.official ++
+  ",\"unofficial\":" ++ showSBlocks Midgard.Spec.Sinex.unofficial ++ ",\"tro\":" ++ showSBlocks Midgard.Spec.Sinex.tro ++ "}"
 
 def handle : List String → Option String
-  | _ => none
+  | ["c14", "spec"] => some specJson
+  | ["c14", "markers"] => some (",".intercalate (baseBlocks.map (·.marker)))
+  | ["c14", "base", sel, h] => do
+    let bs ← pickBlocks sel; let t ← decodeText h
+    pure (parseFileCmd "base" bs baseHeader t)
+  | ["c14", "site", h] => do pure (parseFileCmd "site" siteBlocks siteHeader (← decodeText h))
+  | ["c14", "disc", h] => do pure (parseFileCmd "disc" discBlocks discHeader (← decodeText h))
+  | ["c14", "events", h] => do pure (parseFileCmd "events" eventsBlocks eventsHeader (← decodeText h))
+  | ["c14", "tro", h] => do pure (parseFileCmd "tro" troBlocks troHeader (← decodeText h))
+  | "c14" :: "lines" :: tbl :: bi :: total :: hs => do
+    let T ← tableOf tbl; let b ← T[← bi.toNat?]?; let total ← total.toNat?
+    let ls ← hs.mapM decodeText
+    pure (showVal (.list ((parseLines b.fields total ls).map rowVal)))
+  | ["c14", "cell", c, dt, h] => do
+    let c ← convOf c; let t ← decodeText h
+    let d : DType := if dt = "f8" then .f8 else .obj
+    pure (showCell (convertCell ⟨"x", 0, d, c⟩ t))
+  | _ => Option.none
 
 end Driver.C14
 
